@@ -36,7 +36,7 @@ CLAIMED = {
                 text='Legality of everything asm() accepts for load/store/ALU/compare mnemonics is proved on the model compared exhaustively with the code; label uniqueness/definedness is proved preserved by inlining, optimisation and branch repair; the extracted front end (modes, label tables, symbols) runs on every function of label-heavy generated programs at every level. Known finding: user labels named like generated ones.',
                 ref='DESIGN.md section 6 C13'),
     'C14': dict(cat='proof', technique='Coq proofs about append_code/push_code (shape, injective and closed renaming) + exact unit correspondence + co-execution of every program with and without the inline keyword',
-                text='Structure proved; the behavioural simulation (spliced body vs JSR/RTS) is not proved but co-executed on the extracted 6502 semantics from identical states for all/part/none of the functions marked inline at every level. Partial.',
+                text='Proved: the shape of expansions, injective and closed label renaming; on the 6502 semantics (Sem.run): renaming invariance, embedding of a closed block, the expansion behaves like the body (C14_expansion_behaves_like_body), and BOTH spellings of a call do the same (C14_inline_equals_call and its converse: for a body without stack instructions, nested calls or indirect operands, under any call stack, `JSR f` with the out-of-line form of the body in the program table and the inline expansion reach the line after the call in states with equal A, X, Y, S, flags and memory except the two stack-page cells where JSR left its return markers). Not proved: bodies with nested calls or stack instructions, and the whole-program form for arbitrary surrounding code (the block-level statement composes; two whole programs are computed both ways): these are co-executed on the extracted 6502 semantics from identical states for all/part/none of the functions marked inline at every level, and twins are compared on assembled branch ranges. Partial.',
                 ref='DESIGN.md section 6 C14'),
     'C16': dict(cat='exploration', technique='mutation fuzzing of near-valid programs under catch_unwind + watchdog, with Coq totality theorems for the modelled components',
                 text='Totality of the modelled components (optimiser, branch repair, call-graph marking) is proved in Coq; the parser and generator are explored with token-level mutants, near-valid templates and random bytes under every option set, each compilation in a worker with a watchdog; outcomes must be Ok or an error located inside the input. Panics are attributed to a known finding only by panic site and input class.',
